@@ -82,7 +82,9 @@ namespace _ST_PRIVATE
     {
         const size_t cmplen = std::min<size_t>(lsize, rsize);
         const int cmp = compare_ci(left, right, cmplen);
-        return cmp ? cmp : static_cast<int>(lsize - rsize);
+        if (cmp)
+            return cmp;
+        return lsize < rsize ? -1 : (lsize > rsize ? 1 : 0);
     }
 
     ST_NODISCARD
